@@ -10,7 +10,11 @@ PROP = {
   "saml2_tophat.request:Request._loads[ManageNameIDRequest]",
   "saml2_tophat.request:Request._loads[NameIDMappingRequest]",
   "saml2_tophat.response:StatusResponse._loads",
-  "saml2_tophat.response:StatusResponse._postamble"
+  "saml2_tophat.response:StatusResponse._postamble",
+  "saml2_tophat.validate:valid_integer",
+  "saml2_tophat.validate:valid_non_negative_integer",
+  "saml2_tophat.validate:valid_positive_integer",
+  "saml2_tophat.validate:valid_unsigned_byte"
  ],
  "function_generator": [
   "contracts.c_validate_classes",
